@@ -174,5 +174,21 @@ PROPS["C16"] = dict(
     ],
 )
 
+PROPS["C06"] = dict(
+    title="Session state carries over between requests exactly, never after it ended",
+    level="model_checking",
+    trusted_base=COMMON_TB + ["session_interface cookie accessors, session_storage backend, urandom_device and time() are harness stubs (recorded / arbitrary)"],
+    assumptions=["cookie lengths enumerated around 33; cookie bytes, clock, stored deadline and presence symbolic"],
+    outside="session_interface::save/load (cookie objects, update_exposed), expiration-mode arithmetic, dual storage switching, memory/file/tcp storages, unpredictability of the random identifier",
+    obligations=[
+        dict(id="C06.b", harness="C06_sessions.cpp", entry="h_c06b_valid_sid", ctors=False, cut=[STRING_REALLOC],
+             desc="session_sid::valid_sid accepts exactly I[0-9a-f]{32} and extracts the 32 digits",
+             tiers=T(quick=dict(split=[[0, 1, 32, 33, 34]], unwind=40, timeout=600, bounds="every cookie of length 0,1,32,33,34 (arbitrary bytes)"))),
+        dict(id="C06.b2", harness="C06_sessions.cpp", entry="h_c06b_sid_ops", ctors=False, cut=[STRING_REALLOC],
+             desc="session_sid::load/save/clear: storage is only ever addressed with 32 lowercase hex digits; expired entries are removed and reported absent; new data retires the old id and uses a fresh one; cookie = 'I'+id",
+             tiers=T(quick=dict(split=[[0, 33, 34], [0, 1, 2]], unwind=40, timeout=900, bounds="cookie length in {0,33,34} x {load, save, clear}; cookie bytes, clock, stored deadline/presence, random bytes symbolic"))),
+    ],
+)
+
 # properties for which no obligation can be built with this technique (reason required)
 NOT_APPLICABLE = {}
